@@ -91,8 +91,36 @@ func (d *DB) clone() *DB {
 	return &c
 }
 
+// restore puts the saved content back, preserving the identity of Box / MsgRow objects that existed before
+// (harnesses keep pointers to them).
 func (d *DB) restore(s *DB) {
-	d.Boxes, d.Msgs, d.DeletedSubs, d.NextBoxID = s.Boxes, s.Msgs, s.DeletedSubs, s.NextBoxID
+	liveBoxes := map[imap.InternalMailboxID]*Box{}
+	for _, b := range d.Boxes {
+		liveBoxes[b.ID] = b
+	}
+	boxes := make([]*Box, len(s.Boxes))
+	for i, sb := range s.Boxes {
+		if lb, ok := liveBoxes[sb.ID]; ok {
+			*lb = *sb
+			boxes[i] = lb
+		} else {
+			boxes[i] = sb
+		}
+	}
+	liveMsgs := map[imap.InternalMessageID]*MsgRow{}
+	for _, m := range d.Msgs {
+		liveMsgs[m.ID] = m
+	}
+	msgs := make([]*MsgRow, len(s.Msgs))
+	for i, sm := range s.Msgs {
+		if lm, ok := liveMsgs[sm.ID]; ok {
+			*lm = *sm
+			msgs[i] = lm
+		} else {
+			msgs[i] = sm
+		}
+	}
+	d.Boxes, d.Msgs, d.DeletedSubs, d.NextBoxID = boxes, msgs, s.DeletedSubs, s.NextBoxID
 }
 
 // ---- db.Client ----
